@@ -227,9 +227,18 @@ func runProperty(repo, verif, cmd, id, tier string, verbose bool, filter string,
 	var knownHits []string
 	nClaimed, nDischarged := 0, 0
 	var unclaimed []oblReport
+	var boundedUndecided []string
 	solverTime := map[string]float64{}
 	seen := map[string]bool{}
 	machineryErr := 0
+	// functions with an unannotated loop whose unwinding assertion did not discharge: their
+	// obligations were explored only up to the unrolling bound
+	boundedFn := map[string]bool{}
+	for _, j := range jobs {
+		if j.o.Kind == "auto-unwind" && j.res.Status != "unsat" {
+			boundedFn[j.fr.Key] = true
+		}
+	}
 	for _, j := range jobs {
 		full := j.fr.Key + "/" + j.o.Name
 		seen[full] = true
@@ -279,6 +288,13 @@ func runProperty(repo, verif, cmd, id, tier string, verbose bool, filter string,
 			}
 			nClaimed++
 			reports = append(reports, rep)
+			if ok && boundedFn[j.fr.Key] && j.o.Kind != "cover" {
+				// passes only up to the unrolling bound: labelled bounded, never counted as proved
+				nClaimed--
+				reports[len(reports)-1].Status = "bounded:" + rep.Status
+				boundedUndecided = append(boundedUndecided, full)
+				continue
+			}
 			if ok {
 				nDischarged++
 				continue
@@ -294,6 +310,13 @@ func runProperty(repo, verif, cmd, id, tier string, verbose bool, filter string,
 			if isKnown {
 				nClaimed--
 				reports = reports[:len(reports)-1]
+				continue
+			}
+			if boundedFn[j.fr.Key] && j.res.Status != "sat" {
+				// bounded exploration and no counterexample inside the bound: undecided, not a violation
+				nClaimed--
+				reports = reports[:len(reports)-1]
+				boundedUndecided = append(boundedUndecided, full)
 				continue
 			}
 			rp := writeReplay(verif, id, j, e)
@@ -321,6 +344,10 @@ func runProperty(repo, verif, cmd, id, tier string, verbose bool, filter string,
 		if fr.Undecided != "" {
 			fmt.Printf("UNDECIDED %s: %s\n", fr.Key, fr.Undecided)
 			undecided = append(undecided, fr.Key+": "+fr.Undecided)
+		}
+		if boundedFn[fr.Key] {
+			fmt.Printf("UNDECIDED %s: %s; the unwinding assertion does not discharge, so the function was explored up to that bound only\n", fr.Key, strings.Join(fr.Bounded, "; "))
+			undecided = append(undecided, fr.Key+": bounded: "+strings.Join(fr.Bounded, "; "))
 		}
 	}
 	if cmd == "check" {
